@@ -21,7 +21,13 @@
    - VPR / HPR stop at the last line / column (VT510), CNL / CPL move like CUD / CUU and do
      not scroll (xterm), IL / DL put the cursor in the first column (VT510);
    - entering the alternate screen (1049) saves the cursor and shows a screen cleared to
-     the current background; leaving it restores screen and cursor (xterm). *)
+     the current background; leaving it restores screen and cursor (xterm);
+   - hyperlinks (OSC 8 ; params ; URI ST, the de-facto standard implemented by VTE, iTerm2,
+     xterm.js, kitty ...): params is a ':'-separated list of key=value pairs and contains
+     no ';'; the URI is EVERYTHING after the second ';' of the sequence, so it may itself
+     contain ';' (RFC 3986 path parameters), ':' and '='; both become part of the pen and
+     of every glyph printed under it, an empty URI closes the link.  Params and URI are
+     printable ASCII (bytes 32..126, as the specification demands of a URI). *)
 From Vx Require Import base.Prelude model.Colour model.Sgr.
 
 (* ------------------------------------------------------------------ display cells *)
@@ -295,12 +301,13 @@ Inductive vop :=
   | SU (p : par) | SD (p : par)
   | DECSTBM (t b : par)
   | DECSC | DECRC | AltOn | AltOff
-  | SGR (cs : list sgrc).
+  | SGR (cs : list sgrc)
+  | Link (params uri : text).
 
 (* operations specified while a wrap is pending *)
 Definition allowed_pending (o : vop) : bool :=
   match o with
-  | Print _ _ | CR | CHA _ | HPA _ | VPA _ | CUP _ _ | HVP _ _ | SGR _ => true
+  | Print _ _ | CR | CHA _ | HPA _ | VPA _ | CUP _ _ | HVP _ _ | SGR _ | Link _ _ => true
   | _ => false
   end.
 
@@ -338,12 +345,17 @@ Definition spec_op (v : vt) (o : vop) : vt :=
   | AltOn => alt_on v
   | AltOff => alt_off v
   | SGR cs => set_vpen v (mkStyle (spec_sgr (spen (v_pen v)) cs) (link (v_pen v)) (linkp (v_pen v)))
+  | Link ps uri => set_vpen v (mkStyle (spen (v_pen v)) uri ps)
   end.
 
 (* inside the vocabulary: widths 1 and 2, parameters that fit a machine integer, SGR
    arguments in range *)
 Definition par_ok (p : par) : bool :=
   match p with Om => true | Ex n => (0 <=? n) && (n <? 9223372036854775808) end.
+
+(* printable ASCII *)
+Definition link_text_ok (s : text) : bool := forallb (fun c => in_range c 32 126) s.
+Definition no_semicolon (s : text) : bool := negb (existsb (Z.eqb 59) s).
 
 Definition vop_ok (o : vop) : bool :=
   match o with
@@ -352,6 +364,7 @@ Definition vop_ok (o : vop) : bool :=
   | ED p | EL p | ECH p | ICH p | DCH p | IL p | DL p | SU p | SD p => par_ok p
   | CUP a b | HVP a b | DECSTBM a b => par_ok a && par_ok b
   | SGR cs => forallb sgrc_ok cs
+  | Link ps uri => no_semicolon ps && link_text_ok ps && link_text_ok uri
   | _ => true
   end.
 
